@@ -504,6 +504,11 @@ def resolver(ctx):
     def resolve(ans):
         if ans == "@user":
             return str(user_training_set(ctx))
+        if ans == "@user/":     # the same directory, spelled with a trailing separator
+            return str(user_training_set(ctx)) + "/"
+        if ans == "@user.":     # ... and with a redundant '.' component
+            d = user_training_set(ctx)
+            return str(d.parent) + "/./" + d.name
         if ans == "@emptydir":
             d = ctx.workdir / "empty_ts"
             d.mkdir(exist_ok=True)
@@ -529,7 +534,7 @@ VARY_WORDS = {"true": True, "false": False}
 
 
 def training_valid(sem):
-    return sem in ("zef18", "@user")
+    return sem in ("zef18", "@user", "@user/", "@user.")
 
 
 def apply_run_log(ctx, log, state, D):
@@ -1068,7 +1073,7 @@ def strategies(k=0):
             right = answer_or_skip(num(st.floats(1.0, 6.0), 2))
             weight = answer_or_skip(num(st.floats(0.0, 1.0), 3) | st.just("0"))
             rtype = st.sampled_from(rot([["relative"], [], ["absolute"], ["relative"], []]))
-            training = st.sampled_from(rot([["@user"], [], ["zef18"], [], ["nope", "@user"]]))
+            training = st.sampled_from(rot([["@user"], [], ["zef18"], [], ["nope", "@user"], ["@user/"], ["@user."]]))
         else:
             pre = st.one_of(st.just([]), any_sel.map(lambda s: [s]), valid_sel.map(lambda s: [s]),
                             fittable_sel.map(lambda s: [s]), st.tuples(any_sel, valid_sel | st.just([])).map(list))
@@ -1078,7 +1083,7 @@ def strategies(k=0):
             rtype = st.one_of(st.just([]), st.sampled_from([["absolute"], ["relative"]]),
                               st.tuples(st.sampled_from(["rel", "Relative", "abs", "cp"]),
                                         st.sampled_from(["absolute", "relative", ""])).map(list))
-            training = st.sampled_from([[], [], ["zef18"], ["@user"], ["nope", "@user"], ["nope"],
+            training = st.sampled_from([[], [], ["zef18"], ["@user"], ["nope", "@user"], ["nope"], ["@user/"], ["nope", "@user."],
                                         ["@emptydir", "zef18"], ["nope", "@emptydir", ""]])
         return st.fixed_dictionaries({
             "preprocessing": pre, "sep": st.sampled_from([",", ",", ", "]),
